@@ -100,7 +100,8 @@ class Objects:
                 tables[table] = new if cur_rows is None else ex.seq_concat([cur_rows, new], "list")
             st.ghost["__db__"] = Opaque("db", sealed=db.get("sealed"), tables=tables)
             newcur = cur.updated(rows=None)
-        self.ctx.lib.writeback(ex, st, bm, newcur) if isinstance(bm.base_node, ast.Name) else None
+        if isinstance(bm.base_node, ast.Name) and isinstance(bm.obj, Opaque) and bm.obj.kind == "cursor":
+            self.ctx.lib.writeback(ex, st, bm, newcur)      # cursor.execute(...): the cursor now holds the result rows
         return newcur
 
     def call_method_db(self, ex, st, obj, bm, args, kwargs, node):
@@ -121,6 +122,20 @@ class Objects:
                 return self.cursor_execute(ex, st, obj, bm, args, kwargs, node)
             if name == "executemany":
                 return self.cursor_execute(ex, st, obj, bm, args, kwargs, node, many=True)
+            if name == "executescript":
+                # only the schema script read from SCHEMA_PATH: it creates the (empty) tables of a fresh database
+                t = args[0] if args else None
+                path = t.get("path") if isinstance(t, Opaque) and t.kind == "filetext" else None
+                if not (isinstance(path, Opaque) and path.kind == "module-constant" and path.get("name") == "SCHEMA_PATH"):
+                    raise EngineError("%s:L%d: executescript of anything but the schema file outside the subset" % (ex.fnname, node.lineno))
+                from . import libspec as L
+                L.trusted("cursor.executescript(schema.sql): creates the tables and views of the schema, all empty (CREATE TABLE "
+                          "fails if a table exists; that the script contains nothing but CREATE statements is a structural "
+                          "obligation, pyvc.structural:schema_obligations)")
+                db = self.db(ex, st)
+                tables = {tn: fresh_seq(seq.ety(), "tbl_" + tn, (), None, "list", n=0) for tn, seq in db.get("tables").items()}
+                st.ghost["__db__"] = Opaque("db", sealed=db.get("sealed"), tables=tables)
+                return None
             if name == "fetchone":
                 rows = obj.get("rows")
                 if rows is None:
@@ -166,6 +181,12 @@ class Objects:
             wall_of = self.ctx.uf("wall_of", I, I, I)
             st.assume(z3.Implies(z3.IsInt(inst), wall_of(to_z3(obj.get("id")), z3.ToInt(inst)) == naive.get("wall")))
             return Opaque("aware_dt", instant=inst, tzinfo=Opaque("tzinfo"))
+        if obj.kind == "file" and bm.name == "read":
+            return Opaque("filetext", path=obj.get("path"))
+        if obj.kind == "str" and bm.name in ("lower", "upper", "strip"):
+            return obj
+        if obj.kind == "str" and bm.name in ("startswith", "endswith"):
+            return z3.Bool(uid("strtest"))          # strings are opaque: the test may go either way
         if obj.kind == "tzinfo" and bm.name == "utcoffset":
             return Opaque("timedelta")
         if obj.kind == "aware_dt" and bm.name == "timestamp":
@@ -175,6 +196,8 @@ class Objects:
         raise EngineError("%s:L%d: method %s of %r outside the subset" % (ex.fnname, node.lineno, bm.name, obj))
 
     def index_opaque(self, ex, st, base, node):
+        if base.kind == "strrow":
+            return Opaque("str")
         if base.kind == "argwhere":
             idx = base.get("idx")
             sl = node.slice
@@ -189,7 +212,16 @@ class Objects:
         raise EngineError("%s:L%d: subscript of %r outside the subset" % (ex.fnname, node.lineno, base))
 
     def exec_with(self, ex, node, st):
-        raise EngineError("%s:L%d: with-statement outside the subset" % (ex.fnname, node.lineno))
+        """`with open(path, mode) as f:` only: f is an opaque file whose read() is an opaque text."""
+        if len(node.items) != 1:
+            raise EngineError("%s:L%d: with-statement with several items outside the subset" % (ex.fnname, node.lineno))
+        item = node.items[0]
+        v = ex.eval(item.context_expr, st)
+        if not (isinstance(v, Opaque) and v.kind == "file"):
+            raise EngineError("%s:L%d: with-statement over anything but open(...) outside the subset" % (ex.fnname, node.lineno))
+        if item.optional_vars is not None:
+            ex.assign(item.optional_vars, v, st)
+        return ex.exec_block(node.body, [st])
 
     def defaultdict(self, ex, st, args, node):
         raise EngineError("defaultdict outside the subset")
@@ -213,8 +245,14 @@ class Objects:
         st.assume(z3.ForAll([k], mem(k) == z3.And(wj(k) >= 0, wj(k) < n, wp(k) >= 0, wp(k) < to_z3(inner_w.n),
                                                   to_z3(as_int(inner_w.at(wp(k)))) == k), patterns=[mem(k)]))
         inner_j = ex.as_seq(X.at(j), st)
-        st.assume(z3.ForAll([j, p], z3.Implies(z3.And(j >= 0, j < n, p >= 0, p < to_z3(inner_j.n)),
-                                               mem(to_z3(as_int(inner_j.at(p)))))))
+        ejp = to_z3(as_int(inner_j.at(p)))
+        body = z3.Implies(z3.And(j >= 0, j < n, p >= 0, p < to_z3(inner_j.n)), mem(ejp))
+        from .libspec import _valid_pattern
+        try:
+            # trigger: a mention of the element itself (an uninterpreted application of both positions)
+            st.assume(z3.ForAll([j, p], body, **({"patterns": [ejp]} if _valid_pattern(ejp) else {})))
+        except z3.Z3Exception:
+            st.assume(z3.ForAll([j, p], body))
         size = z3.Int(uid("setsize"))
         wit0 = z3.Int(uid("member0"))
         st.assume(size >= 0, z3.Implies(size >= 1, mem(wit0)), z3.ForAll([k], z3.Implies(mem(k), size >= 1), patterns=[mem(k)]))
@@ -255,7 +293,11 @@ class Objects:
         return Seq(to_z3(s.n) * w, elem, "list")
 
     def next_of(self, ex, st, v, node):
-        raise EngineError("next() outside the subset")
+        """next(csv reader): the header row (opaque strings); StopIteration on an empty file is tolerated only if the
+        contract declares it."""
+        if isinstance(v, Opaque) and v.kind == "csvreader":
+            return Opaque("strrow")
+        raise EngineError("%s:L%d: next() of %r outside the subset" % (ex.fnname, node.lineno, v))
 
 
 def antiderivative_of(ctx, clo):
@@ -274,6 +316,8 @@ def antiderivative_of(ctx, clo):
 
 
 LIBFUNCS = {
+    "pytz.timezone": "pytz_timezone",
+    "csv.reader": "csv_reader",
     "datetime.datetime.strptime": "dt_strptime",
     "datetime.datetime.fromtimestamp": "dt_fromtimestamp",
     "scipy.stats.norm.cdf": "sp_normcdf",
@@ -289,6 +333,23 @@ LIBFUNCS = {
 def _install():
     from . import libspec
     L = libspec.Lib
+
+    def b_pytz_timezone(self, ex, st, args, kwargs, node):
+        return Opaque("tz", id=z3.Int(uid("zone")))
+
+    def b_csv_reader(self, ex, st, args, kwargs, node):
+        """csv.reader(file): after the header, the remaining rows (texts and values modelled by integer identities,
+        as in the contract of generate_timestamped_rows)."""
+        rows = fresh(parse_type("list[list[int]]"), "csvrows")
+        st.assume(to_z3(rows.n) >= 0)
+        return Opaque("csvreader", rows=rows)
+
+    def b_open(self, ex, st, args, kwargs, node):
+        return Opaque("file", path=args[0])
+
+    L.b_pytz_timezone = b_pytz_timezone
+    L.b_csv_reader = b_csv_reader
+    L.b_open = b_open
 
     def b_sp_interp1d(self, ex, st, args, kwargs, node):
         libspec.trusted("scipy.interpolate.interp1d(kind='linear'): the piecewise-linear interpolant of the points; "
